@@ -1287,6 +1287,27 @@ class Interp:
         if k == "block":
             return bool(e.get("stmts")) or self.lost_track(e.get("expr"), depth + 1)
         if k == "local":
+            # a local that is assigned to after its declaration (set in one branch, kept in another) is the value of
+            # an `if` written with statements: the same unknown origin
+            # (only when every value it is given is an integer literal: `let mut start = 3; if c { start = 5 }`;
+            # a cursor advanced by arithmetic stays a judged value)
+            if not hasattr(self, "_assigned"):
+                lit_only, other = set(), set()
+                for x in walk(self.b["body"]):
+                    if x.get("k") in ("assign", "assignop"):
+                        l_ = peel(x.get("l"))
+                        if isinstance(l_, dict) and l_.get("k") == "local":
+                            v_ = lit_val(peel(x.get("r"))) if x.get("k") == "assign" else None
+                            if isinstance(v_, int) and not isinstance(v_, bool):
+                                lit_only.add(l_["id"])
+                            else:
+                                other.add(l_["id"])
+                self._assigned = lit_only - other
+            if e.get("id") in self._assigned:
+                init0 = self._bindmap().get(e.get("id"))
+                v0 = lit_val(peel(init0)) if init0 is not None else None
+                if isinstance(v0, int) and not isinstance(v0, bool):
+                    return True
             init = self._bindmap().get(e.get("id"))
             return init is not None and self.lost_track(init, depth + 1)
         if k == "bin":
